@@ -14,9 +14,10 @@ class Invalid(Exception):
 
 
 class Val:
-    __slots__ = ("name", "dt", "arr", "kind", "decl")
+    __slots__ = ("name", "dt", "arr", "kind", "decl", "noshape")
 
     def __init__(self, name, dt, arr, kind, decl=None):
+        self.noshape = False  # graph input declared with an element type but no shape
         self.name = name
         self.dt = dt          # 'f32' 'i32' 'i64' 'bool' 'u8' 'i8' 'f64'
         self.arr = arr        # numpy array (primary binding)
@@ -180,7 +181,11 @@ class GraphBuilder:
         if as_const:
             return self.add_init(dt, arr)
         decl = self.declare(shape)
-        return self.add_input(dt, arr, decl)
+        v = self.add_input(dt, arr, decl)
+        # Some inputs carry no shape metadata at all (allowed by ONNX).
+        if self.mode == "dag" and all(not isinstance(d, str) for d in decl) and self.rng.chance(1, 10):
+            v.noshape = True
+        return v
 
     def declare(self, shape):
         """Declared input shape: some dims symbolic."""
@@ -319,7 +324,7 @@ class GraphBuilder:
         outputs = outputs or self.outputs
         nodes = [pb.node(nd["op"], nd["inputs"], nd["outputs"], nd["attrs"], nd["name"], nd["domain"]) for nd in self.nodes]
         inits = [pb.tensor(n, self.vals[n].arr, typed=(n in self.typed_inits)) for n in self.inits]
-        ins = [pb.value_info(n, pb.DT2ONNX[self.vals[n].dt], self.vals[n].decl) for n in self.inputs]
+        ins = [pb.value_info(n, pb.DT2ONNX[self.vals[n].dt], None if self.vals[n].noshape else self.vals[n].decl) for n in self.inputs]
         outs = []
         for n in outputs:
             v = self.vals[n]
